@@ -27,6 +27,8 @@ type cfg struct {
 	N      int     `json:"max_len"`
 	SetLen int     `json:"set_max_len"`
 	Roots  [][]int `json:"roots"` // nil => New; else NewWithData (untracked elements >= 100)
+	// NoMerge > 0: enumerate every history up to this depth without merging states.
+	NoMerge int `json:"unmerged_depth,omitempty"`
 }
 
 type counters struct{ swapsReported, interiorRemove, setReports int64 }
@@ -130,6 +132,8 @@ func (s *inst) Key() string {
 	if s.emptied {
 		sb.WriteString(" E")
 	}
+	sb.WriteString(" ")
+	sb.WriteString(mc.Fingerprint(s.q)) // fields the harness does not know about
 	return sb.String()
 }
 
@@ -261,7 +265,7 @@ func (s *inst) observe() *mc.Failure {
 
 func makeBFS(c *cfg, cnt *counters) *mc.BFS[op] {
 	return &mc.BFS[op]{
-		Name: "heap-pos-bfs", Config: c, NRoots: 2 * len(c.Roots), Merge: true,
+		Name: "heap-pos-bfs", Config: c, NRoots: 2 * len(c.Roots), Merge: c.NoMerge == 0, MaxDepth: c.NoMerge,
 		Root: func(i int) (mc.Inst[op], *mc.Failure) {
 			s := &inst{c: c, cnt: cnt, desc: i%2 == 1, held: map[int]bool{}, tracked: map[int]bool{}, pos: map[int]int{}}
 			u := func(v, p int) { s.pos[v] = p; s.ncb++ }
@@ -509,6 +513,9 @@ func main() {
 			// a deeper heap (three full levels) without Set, which dominates the alphabet
 			deep := &cfg{V: mc.Pick(r, 8, 9), N: mc.Pick(r, 8, 9), SetLen: 0, Roots: [][]int{nil}}
 			res2 := makeBFS(deep, &cnt).Run(r)
+			flat := &cfg{V: 3, N: 3, SetLen: 1, Roots: [][]int{nil, {100}}, NoMerge: mc.Pick(r, 5, 6)}
+			res3 := makeBFS(flat, &cnt).Run(r)
+			r.Bound("unmerged_configuration", fmt.Sprintf("3 values, up to 3 elements: every history up to depth %d without state merging: %d histories", flat.NoMerge, res3.States))
 			r.Bound("deeper_configuration", fmt.Sprintf("%d distinct values, up to %d elements, no Set: %d states", deep.V, deep.N, res2.States))
 			r.Bound("distinct_values", c.V)
 			r.Bound("max_len", c.N)
